@@ -144,7 +144,7 @@ pub fn gated_case(p: &Profile) -> BoxedStrategy<Case> {
     free.opw = OpW { desync: 12, sync: 6, trysync: 2, futdesync: 4, await_: 3, futsync: 2, after: 0, waitfor: 2, opengate: 0, release: 0, ..OpW::default() };
     free.stepw = StepW { awaitgate: 0, opengate: 0, blockongate: 0, nested_desync: 0, nested_sync: 0, nested_futdesync: 0, awaitfutsync: 0, awaitfutdesync: 0, ..StepW::default() };
     let free_ops = vec(vec(op_strategy(&free), 1..=5), 1..=3);
-    (1u8..=3, 2u8..=4, any::<u8>(), free_ops, vec((0u8..3, any::<u8>()), 1..=3), sched_strategy(p.sched_bytes), prop::bool::weighted(0.3), prop::bool::ANY, (prop::bool::weighted(0.25), 0u8..=1, any::<u8>())).prop_map(|(pool, objects, kraw, mut free_callers, blockers, sched, unlock_points, extra_sync, (raise, p0, nraw))| {
+    (1u8..=3, 2u8..=4, any::<u8>(), free_ops, vec((0u8..4, any::<u8>()), 1..=3), sched_strategy(p.sched_bytes), prop::bool::weighted(0.3), prop::bool::ANY, (prop::bool::weighted(0.25), 0u8..=1, any::<u8>())).prop_map(|(pool, objects, kraw, mut free_callers, blockers, sched, unlock_points, extra_sync, (raise, p0, nraw))| {
         if raise && objects >= 3 {
             // variant: the work is scheduled while the pool is too small to serve it (0 or 1 threads, the blocked objects may
             // take them all); then the maximum is raised through the public API and nothing else is called: every free
@@ -195,6 +195,8 @@ pub fn gated_case(p: &Profile) -> BoxedStrategy<Case> {
             match kind {
                 0 => ops.push(Op::Desync { o: b as u8, body: vec![Step::Touch, Step::BlockOnGate { g }], id: 0 }),
                 1 => ops.push(Op::FutDesync { o: b as u8, body: vec![Step::AwaitGate { g }, Step::Touch], slot: 0, id: 0 }),
+                // the job hands work to a free object and then blocks: that work must not wait for this job's thread
+                3 => ops.push(Op::Desync { o: b as u8, body: vec![Step::NestedDesync { o: 255, body: vec![Step::Touch], id: 0 }, Step::BlockOnGate { g }], id: 0 }),
                 _ => ops.push(Op::Desync { o: b as u8, body: vec![Step::BlockOnGate { g }], id: 0 }),
             }
             if extra_sync {
